@@ -214,6 +214,8 @@ def run(ctx):
                               {"psi": (pure_pts[0] * 1.7).tolist(), "history": "view scaled in place"})
         except Exception as ex_:
             ctx.violation(f"purity:{name}:raises:{type(ex_).__name__}", f"{type(ex_).__name__}: {ex_}", {"routine": name})
+    from .c02 import typed_arguments
+    ncmp += typed_arguments(ctx, "derivatives")
     # binding self-test: a corrupted element must produce a different number
     st = cases[0]
     el = [list(map(list, p)) for p in st["expected"]["T"][0][1]["d"]]
